@@ -127,11 +127,21 @@ func TestC17LateRegistration(t *testing.T) {
 // (enterprise, name). Every element the id lookup resolves, over all ids of the three shipped
 // enterprises, must be one the name lookup knows too, with the same definition - otherwise the
 // collector treats as known an element that is not in the registry.
+// rfc5103NonReversible: the IANA ids of the information elements RFC 5103, section 6.1, lists as
+// having no reverse counterpart (written down from the RFC and the IANA registry, not from the
+// library's table): biflowDirection, the collector / exporter addresses, ports and protocol, the
+// export and metering statistics, the identifiers, flowKeyIndicator, paddingOctets.
+var rfc5103NonReversible = map[uint16]bool{239: true, 211: true, 212: true, 216: true, 137: true, 41: true, 40: true, 42: true, 130: true, 131: true, 217: true,
+	213: true, 214: true, 215: true, 148: true, 173: true, 164: true, 165: true, 166: true, 167: true, 168: true, 149: true, 163: true, 210: true, 145: true}
+
 func checkRegistryEntry(a []uint32) *ev.Failure {
 	ent, id := a[0], a[1]
 	ie, err := registry.GetInfoElementFromID(uint16(id), ent)
 	if err != nil || ie == nil {
 		return nil
+	}
+	if ent == registry.IANAReversedEnterpriseID && rfc5103NonReversible[uint16(id)] {
+		return ev.Failf("the registry of reverse elements (enterprise %d) holds id %d as %q, an element RFC 5103 (section 6.1) lists as not reversible: a template naming it is a template with an unknown element, to be refused in strict mode and carried as octets otherwise", ent, id, ie.Name)
 	}
 	byName, err := registry.GetInfoElement(ie.Name, ent)
 	if err != nil || byName == nil || byName.ElementId != ie.ElementId || byName.EnterpriseId != ie.EnterpriseId || byName.DataType != ie.DataType || byName.Len != ie.Len {
